@@ -104,6 +104,7 @@ type InvariantDecl struct {
 	Protects []string
 	Recv     string // name used for the object in the expression (default: first letter or "self")
 	Clauses  []*Clause
+	Assumes  []*Clause // assumed together with the invariant at Lock, never asserted (listed as assumptions)
 	Pkg      string
 	Props    []string
 	Line     string
@@ -455,6 +456,12 @@ func ParseContractLines(pkg, path string, lines []rawLine) *ContractFile {
 			if curInv != nil {
 				if d.kw == "props" {
 					curInv.Props = splitList(d.text)
+					continue
+				}
+				if d.kw == "assumes" {
+					if c := mkClause(d.loc, d.text); c != nil {
+						curInv.Assumes = append(curInv.Assumes, c)
+					}
 					continue
 				}
 				errf(d.loc, "unexpected %q in invariant", d.kw)
